@@ -21,6 +21,8 @@ impl From<Q16E1> for P16E1 {
 impl From<&Q16E1> for P16E1 {
     #[inline]
     fn from(q_a: &Q16E1) -> Self {
+        #[cfg(softposit_verif)]
+        crate::verif_trace::qround(16, q_a.to_bits(), q_a.to_posit().to_bits() as u64);
         q_a.to_posit()
     }
 }
